@@ -731,11 +731,22 @@ class Evaluator:
                 heads = [x for _, x in s[1][2]] if s[1][0] == 'call' else [s[1]]
             elif k in ('assign', 'plusassign'):
                 heads = [s[2]]
-            if any(_has_effect_call(h) for h in heads) and not (e.why == 'void used as a value' and self.in_expr_msgs == 1
-                                                                and sum(_count_effect_calls(h) for h in heads) == 1):
-                # an effectful call sits inside an expression next to another fault: which one is met
-                # first depends on an evaluation order the documentation does not fix
-                raise Undefined('evaluation order inside one expression would be observable')
+            self._order_rule(e, heads)
+            raise
+
+    def _order_rule(self, e: 'MesonError', heads: T.List[list]) -> None:
+        if any(_has_effect_call(h) for h in heads) and not (e.why == 'void used as a value' and self.in_expr_msgs == 1
+                                                            and sum(_count_effect_calls(h) for h in heads) == 1):
+            # an effectful call sits inside an expression next to another fault: which one is met
+            # first depends on an evaluation order the documentation does not fix
+            raise Undefined('evaluation order inside one expression would be observable')
+
+    def eval_head(self, e: list) -> T.Any:
+        """The condition of an if / the iterable of a foreach: one expression like the right side of an assignment."""
+        try:
+            return self.eval(e)
+        except MesonError as ex:
+            self._order_rule(ex, [e])
             raise
 
     def _stmt(self, s: list) -> None:
@@ -752,7 +763,8 @@ class Evaluator:
             self.plusassign(s[1], s[2])
         elif k == 'if':
             for cond, blk in s[1]:
-                c = self.eval(cond)
+                self.in_expr_msgs = 0
+                c = self.eval_head(cond)
                 if tname(c) != 'bool':
                     raise MesonError('if condition is not a boolean')
                 if c:
@@ -799,7 +811,7 @@ class Evaluator:
 
     def foreach(self, s: list) -> None:
         names, it, blk = s[1], s[2], s[3]
-        v = self.eval(it)
+        v = self.eval_head(it)
         t = tname(v)
         if t == 'arr':
             items: T.List[T.Any] = [(x,) for x in v]
